@@ -17,11 +17,14 @@ package PKGNAME
 
 import (
 	"bytes"
+	"encoding/binary"
+	"encoding/hex"
 	"fmt"
 	"os"
 	"sort"
 	"strings"
 	"sync"
+	"sync/atomic"
 	"time"
 
 	"github.com/spf13/viper"
@@ -74,6 +77,33 @@ type vAbRun struct {
 	buildErr  error
 	backlog   func() int // entries waiting in the reader's buffer (flow control)
 	stopDelay time.Duration
+	extEvery  int // producer 0 adds an external-trigger packet to every extEvery-th read (0 = never)
+	extSent   int // external-trigger entries handed to the reader
+	extSeq    int
+}
+
+// header of a real external-trigger ("timer") packet: version 1, 96-byte header, TLVs counter / two tags /
+// timestamp with unit / format ">IIQ" / label "value,active,t" / shape; payload = (u32 value, u32 active, u64 t) big-endian
+const vAbExtHeaderHex = "01600200810b00ff0608002000024883" + "0901000000000000" + "1201000100000000" + "1201000000000000" +
+	"130240f70004000100000073" + "30810384" + "21013e4949512020" + "290276616c75652c6163746976652c74" + "2201000000010000" + "0001000000000000"
+
+var vAbExtSentTotal int64 // external-trigger entries handed to a reader in this process
+
+// vAbExtTrigPacket builds an external-trigger packet carrying the given firmware timestamps.
+func vAbExtTrigPacket(seq int, times []uint64) (*packets.Packet, error) {
+	h, err := hex.DecodeString(vAbExtHeaderHex)
+	if err != nil || len(h) != 96 {
+		return nil, fmt.Errorf("bad embedded header (%d bytes): %v", len(h), err)
+	}
+	binary.BigEndian.PutUint16(h[2:], uint16(16*len(times)))
+	binary.BigEndian.PutUint32(h[12:], uint32(seq))
+	b := make([]byte, 16*len(times))
+	for i, t := range times {
+		binary.BigEndian.PutUint32(b[16*i:], 0x80000001)
+		binary.BigEndian.PutUint32(b[16*i+4:], 2)
+		binary.BigEndian.PutUint64(b[16*i+8:], t)
+	}
+	return packets.ReadPacket(bytes.NewReader(append(h, b...)))
 }
 
 type vAbProducer struct {
@@ -183,6 +213,20 @@ func (p *vAbProducer) ReadAllPackets() ([]*packets.Packet, error) {
 		if q := run.makePacket(gi, idx); q != nil {
 			out = append(out, q)
 			run.delivered[gi] = append(run.delivered[gi], idx)
+		}
+	}
+	if run.extEvery > 0 && p.id == 0 && t%run.extEvery == 0 {
+		times := make([]uint64, 1+t%3)
+		for i := range times {
+			times[i] = uint64(1000000 + (run.nextIdx[0]*s.fpp+i)*1000)
+		}
+		run.extSeq++
+		if q, err := vAbExtTrigPacket(run.extSeq, times); err == nil && q.IsExternalTrigger() {
+			out = append(out, q)
+			run.extSent += len(times)
+			atomic.AddInt64(&vAbExtSentTotal, int64(len(times)))
+		} else if run.buildErr == nil {
+			run.buildErr = fmt.Errorf("external-trigger packet: %v", err)
 		}
 	}
 	end := s.nSample + s.nScript
@@ -507,6 +551,9 @@ func vRunAbacoOnce(c *vCase, s *vAbScript, rep int) {
 		run.nextIdx[gi] = s.sampledOf(gi)
 	}
 	run.backlog = func() int { return len(as.buffersChan) }
+	if c.Idx%4 == 1 {
+		run.extEvery = 2 + c.R.Intn(4) // external-trigger packets mixed into the stream: they carry no samples and must not disturb it
+	}
 	as.producers = nil
 	for p := 0; p < s.nprod; p++ {
 		as.producers = append(as.producers, &vAbProducer{run: run, id: p})
@@ -552,6 +599,11 @@ func vRunAbacoOnce(c *vCase, s *vAbScript, rep int) {
 	if stoppedEarly {
 		c.Violate("c03:source-ended", "the source ended by itself while well-formed packets kept arriving\n%s", s)
 		return
+	}
+	if run.extEvery > 0 {
+		c.Cov("cases_with_external_trigger_packets", 1)
+		c.Cov("external_trigger_entries_sent", run.extSent)
+		atomic.StoreInt64(&vAbExtSentTotal, 0)
 	}
 	vCheckAbaco(c, s, run, tap, stalled, wantFrames)
 }
